@@ -462,6 +462,38 @@ pub fn run(tier: &str, seed: u64, em: &mut Emitter) {
         emit(em, "systematic-start", start, &[Op::Dump]);
     }
 
+    // Systematic 0: every rule of the server-default ruleset, by kind, against every edit: it can be
+    // neither removed nor re-inserted nor used as an anchor, whatever was done to it before (seed4 C13-2)
+    {
+        let rs = Ruleset::server_default(<&UserId>::try_from(USER).unwrap());
+        let mut defaults: Vec<(usize, String)> = vec![];
+        for r in rs.iter() {
+            use ruma_common::push::AnyPushRuleRef as A;
+            let kind = match r {
+                A::Override(_) => 0,
+                A::Content(_) => 1,
+                A::Room(_) => 2,
+                A::Sender(_) => 3,
+                A::Underride(_) => 4,
+                #[allow(unreachable_patterns)]
+                _ => continue,
+            };
+            defaults.push((kind, r.rule_id().to_owned()));
+        }
+        for (kind, id) in &defaults {
+            let (kind, id) = (*kind, id.clone());
+            let rm = Op::Remove { kind, id: id.clone() };
+            let user = id_for(kind, "a");
+            emit(em, "systematic-defaults", 1, &[rm.clone(), Op::Dump]);
+            emit(em, "systematic-defaults", 1, &[Op::SetEnabled { kind, id: id.clone(), enabled: false }, rm.clone(), Op::Dump]);
+            emit(em, "systematic-defaults", 1, &[Op::SetActions { kind, id: id.clone(), actions: ACTIONS[1].to_owned() }, rm.clone(), Op::Dump]);
+            emit(em, "systematic-defaults", 1, &[ins(kind, &id, 1, 1, None, None), Op::Dump]);
+            emit(em, "systematic-defaults", 1, &[ins(kind, &user, 1, 1, Some(&id), None), Op::Dump]);
+            emit(em, "systematic-defaults", 1, &[ins(kind, &user, 1, 1, None, Some(&id)), Op::Dump]);
+            emit(em, "systematic-defaults", 1, &[rm.clone(), ins(kind, &id, 1, 1, None, None), Op::Dump]);
+        }
+    }
+
     // Systematic 1: every arrangement of a small set of rules in a kind, then every single operation.
     let names: &[&str] = if thorough { &["a", "b", "c", "d"] } else { &["a", "b", "c"] };
     for start in 0..2i128 {
